@@ -92,11 +92,17 @@ func c20Run(c *caseCtx) (res caseResult) {
 	// every other case: the node is configured with bootstrap members, which are members of the universe
 	// below (u0 under its first address, u3 under its second); they are members like any other
 	boot := c.n%2 == 1
+	smcfg := cluster.NewSelfManagedConfig()
 	if boot {
-		cfg = cfg.WithProvider(cluster.NewSelfManagedProvider(cluster.NewSelfManagedConfig().
-			WithBootstrapMember(cluster.MemberAddr{ListenAddr: addr(2), ID: "u0"}).
-			WithBootstrapMember(cluster.MemberAddr{ListenAddr: addr(9 + 3), ID: "u3"})))
+		smcfg = smcfg.WithBootstrapMember(cluster.MemberAddr{ListenAddr: addr(2), ID: "u0"}).
+			WithBootstrapMember(cluster.MemberAddr{ListenAddr: addr(9 + 3), ID: "u3"})
 	}
+	// the real provider, behind a receiver that can be parked (a busy provider: messages queue up in its inbox)
+	realProvider := cluster.NewSelfManagedProvider(smcfg)
+	cfg = cfg.WithProvider(func(cl *cluster.Cluster) actor.Producer {
+		ip := realProvider(cl)
+		return func() actor.Receiver { return &parkable{inner: ip()} }
+	})
 	cl, err := cluster.New(cfg)
 	if err != nil {
 		res.inconclusive("cluster: %v", err)
@@ -180,7 +186,20 @@ func c20Run(c *caseCtx) (res caseResult) {
 	handshake := func(m *cluster.Member) ([]string, bool) {
 		n := probe.count()
 		h.SendWithSender(providerPID, &cluster.Handshake{Member: m.CloneVT()}, probePID)
-		if !waitFor(wd, func() bool { return probe.count() > n }) {
+		if !waitFor(wd/2, func() bool { return probe.count() > n }) {
+			// decide on state: a Members list sent after the handshake travels the same way (harness engine ->
+			// provider inbox); once it has taken effect at the agent the provider has handled the handshake
+			h.Send(providerPID, &cluster.Members{Members: []*cluster.Member{sentinel.CloneVT()}})
+			if waitFor(wd/2, func() bool {
+				for _, id := range agentIDs() {
+					if id == sentinel.ID {
+						return true
+					}
+				}
+				return false
+			}) && probe.count() == n {
+				res.violate("a handshake from member %s@%s was handled by the provider (a Members list sent after it has taken effect) but never answered: every handshake is answered with the complete member list", m.ID, m.Host)
+			}
 			return nil, false
 		}
 		return probe.last(), true
@@ -416,6 +435,46 @@ func c20Run(c *caseCtx) (res caseResult) {
 			everRemoved[m.ID] = true
 			interesting++
 			shape = append(shape, 'R')
+		case x == 9 && step%3 == 0: // the provider is busy; a member's handshake and the report that its address is unreachable queue up, in that order
+			var absent []*cluster.Member
+			for _, m := range universe {
+				if model[m.ID] == nil {
+					absent = append(absent, incarnate(m))
+				}
+			}
+			if len(absent) == 0 {
+				continue
+			}
+			m := absent[r.Intn(len(absent))]
+			pk := c20Park{entered: make(chan struct{}), release: make(chan struct{})}
+			e.Send(providerPID, pk)
+			select {
+			case <-pk.entered:
+			case <-time.After(wd):
+				res.inconclusive("step %d: the provider did not take up a message", step)
+				return
+			}
+			n0 := probe.count()
+			e.SendWithSender(providerPID, &cluster.Handshake{Member: m.CloneVT()}, probePID) // queued: the provider is parked
+			e.BroadcastEvent(actor.RemoteUnreachableEvent{ListenAddr: m.Host})
+			// let the report travel (event stream -> the provider's listener -> the provider's inbox) while the provider is still busy
+			mon.flush(e, wd)
+			time.Sleep(20 * time.Millisecond)
+			close(pk.release)
+			if !waitFor(wd, func() bool { return probe.count() > n0 }) {
+				res.inconclusive("step %d: the queued handshake was not answered", step)
+				return
+			}
+			everRemoved[m.ID] = true
+			interesting++
+			if !flushUnreachable() {
+				if res.Verdict != vViolated {
+					res.inconclusive("step %d: the sentinel barrier did not complete", step)
+				}
+				return
+			}
+			what = fmt.Sprintf("provider busy: handshake of %s@%s, then unreachable report for that address, both queued", m.ID, m.Host)
+			shape = append(shape, 'P')
 		default: // unreachable report for a non-member
 			var host string
 			if r.Intn(2) == 0 {
@@ -613,4 +672,18 @@ func c20Discovery(c *caseCtx) (res caseResult) {
 	}
 	time.Sleep(200 * time.Millisecond)
 	return res
+}
+
+// parkable wraps the provider's receiver: a c20Park message keeps it inside Receive until released.
+type parkable struct{ inner actor.Receiver }
+
+type c20Park struct{ entered, release chan struct{} }
+
+func (p *parkable) Receive(c *actor.Context) {
+	if pk, ok := c.Message().(c20Park); ok {
+		close(pk.entered)
+		<-pk.release
+		return
+	}
+	p.inner.Receive(c)
 }
